@@ -196,11 +196,20 @@ def K():
             self._was_successful = False
             self._ev(['add', 'failure', tnum(test), canon_err(error)])
 
+        # trial's reporter signatures (`todo=None`): whatever arrives in `todo` is part of the call the target received
+        @staticmethod
+        def _todo(todo, plain):
+            if todo is None:
+                return plain
+            if isinstance(todo, dict):
+                return ['details', canon_details(todo)]          # a details dict bound to `todo`
+            return 'not-a-todo'
+
         def addExpectedFailure(self, test, failure, todo=None):
-            self._ev(['add', 'xfail', tnum(test), canon_err(failure)])
+            self._ev(['add', 'xfail', tnum(test), self._todo(todo, canon_err(failure))])
 
         def addUnexpectedSuccess(self, test, todo=None):
-            self._ev(['add', 'uxsuccess', tnum(test), None])
+            self._ev(['add', 'uxsuccess', tnum(test), self._todo(todo, None)])
 
         def addSkip(self, test, reason):
             self._ev(['add', 'skip', tnum(test), ['reason', chars(reason)] if isinstance(reason, str) else 'not-a-reason'])
@@ -209,6 +218,8 @@ def K():
             pass
 
     def canon_arg(err, details):
+        if details is not None and err is not None:
+            return 'both-err-and-details'         # the full call is recorded: no protocol passes both
         if details is not None:
             return ['details', canon_details(details)]
         if err is None:
